@@ -340,7 +340,11 @@ def r13_5(chk):
     raises = T.reach_conditions(fn, lambda n: isinstance(n, ast.Raise), set())
     conds = [T.show(c) for _, c in raises]
     ro = any("self.mode is READONLY" in c and "not ?self.mode is READONLY" not in c.split(" and ")[0] for c in conds)
-    ap = any("unique_id in self" in c and "self.mode is APPEND" in c for c in conds)
+    # the membership test may be evaluated into a local first
+    from ..defuse import assignments as _asg
+
+    member_names = {t.id for tg, v, _ in _asg(fn) if norm(v) == "unique_id in self" for t in tg if isinstance(t, ast.Name)}
+    ap = any(("unique_id in self" in c or any(f"?{nm}" in c for nm in member_names)) and "self.mode is APPEND" in c for c in conds)
     chk.decide(ro, "R13.5", key(m, "DataStoreABC._check_writable", "READONLY raises"), m.loc(fn), "raises when mode is READONLY", f"no raise guarded by `self.mode is READONLY` (conditions: {conds})")
     chk.decide(ap, "R13.5", key(m, "DataStoreABC._check_writable", "APPEND no overwrite"), m.loc(fn), "raises when the identifier exists and mode is APPEND", f"no raise guarded by `unique_id in self and self.mode is APPEND` (conditions: {conds})")
     for meth in ("write", "write_not_completed", "write_log"):
@@ -543,7 +547,116 @@ def r13_9(chk):
     chk.floor("R13.9", 1, "one writer")
 
 
+CACHE_LOADS = {"completed", "not_completed", "members"}
+
+
+def _unconditional_subexprs(e):
+    """sub-expressions of e that are evaluated whenever e is (short-circuit operands and conditional arms excluded)"""
+    yield e
+    if isinstance(e, ast.BoolOp):
+        yield from _unconditional_subexprs(e.values[0])
+    elif isinstance(e, ast.IfExp):
+        yield from _unconditional_subexprs(e.test)
+    elif isinstance(e, (ast.Lambda, ast.ListComp, ast.SetComp, ast.DictComp, ast.GeneratorExp)):
+        return
+    else:
+        for c in ast.iter_child_nodes(e):
+            if isinstance(c, ast.expr):
+                yield from _unconditional_subexprs(c)
+
+
+def _pruned_nodes(g, fn, const_args):
+    """CFG nodes inside `if <param> == <CONST>:` bodies that cannot run for this call (the caller passes another constant)"""
+    dead = set()
+    if not const_args:
+        return []
+    for i in ast.walk(fn):
+        if isinstance(i, ast.If) and isinstance(i.test, ast.Compare) and len(i.test.ops) == 1 and isinstance(i.test.ops[0], ast.Eq) and isinstance(i.test.left, ast.Name) and i.test.left.id in const_args:
+            rhs = norm(i.test.comparators[0])
+            given = const_args[i.test.left.id]
+            if rhs != given and (rhs.isupper() or rhs.startswith("_") and rhs[1:].isupper() or rhs[:1] in "'\"") and (given.isupper() or given.startswith("_") and given[1:].isupper() or given[:1] in "'\""):
+                for b in i.body:
+                    for x in ast.walk(b):
+                        dead.add(id(x))
+    return [n for n in g.nodes if n.ast is not None and id(n.ast) in dead]
+
+
+def _loads_member_cache(ci_chain, fn, depth=3, _memo=None, which=None, const_args=None):
+    """does every normal path through fn evaluate something that fills the lazy member lists: self.completed /
+    .not_completed / .members, `x in self`, iteration over self, or a self/super method that does"""
+    _memo = _memo if _memo is not None else {}
+    if id(fn) in _memo:
+        return _memo[id(fn)]
+    _memo[id(fn)] = False
+    g = build(fn)
+    # which list has to be filled: "completed" / "not_completed" (members, `in self` and iteration fill both)
+    wanted = {"members"} | ({which} if which else {"completed", "not_completed"})
+
+    def loads(x):
+        if isinstance(x, ast.Attribute) and norm(x.value) == "self" and x.attr in wanted:
+            return True
+        if isinstance(x, ast.Compare) and any(isinstance(o, (ast.In, ast.NotIn)) for o in x.ops) and any(norm(c) == "self" for c in x.comparators):
+            return True
+        if isinstance(x, ast.Call) and depth > 0:
+            f = x.func
+            name = None
+            if isinstance(f, ast.Attribute) and norm(f.value) == "self":
+                name = f.attr
+            elif isinstance(f, ast.Attribute) and isinstance(f.value, ast.Call) and call_name(f.value) == "super":
+                name = f.attr
+            if name:
+                for ci in ci_chain:
+                    cal = ci.methods.get(name)
+                    if isinstance(cal, ast.FunctionDef) and cal is not fn:
+                        consts = {kw.arg: norm(kw.value) for kw in x.keywords if kw.arg and isinstance(kw.value, (ast.Name, ast.Constant))}
+                        sub = _loads_member_cache(ci_chain, cal, depth - 1, {} if consts else _memo, which, consts)
+                        if (sub[0] if isinstance(sub, tuple) else sub):
+                            return True
+        return False
+
+    nodes = []
+    for nd in g.nodes:
+        if nd.ast is None or nd.kind == "def":
+            continue
+        for e in own_exprs(nd):
+            if any(loads(x) for x in _unconditional_subexprs(e)):
+                nodes.append(nd)
+                break
+    res = bool(nodes) and id(g.exit) not in g.reachable([g.entry], blocked=nodes + _pruned_nodes(g, fn, const_args), kinds=("n",))
+    _memo[id(fn)] = res
+    return res, nodes, g
+
+
+def r13_10(chk):
+    chk.rule("R13.10", "the member lists of a store are lazy caches (filled from the directory / table the first time they are asked for, and only while empty): a write appends to `self._completed` / `self._not_completed` only after something on every path has filled them (self.completed, `unique_id in self`, ... evaluated unconditionally, directly or in a method it calls) -- appending to a cache that was never loaded makes it non-empty, so the records already in the store are never listed: a store re-opened in mode 'w' and written to first shows only the new record")
+    for rel, cname in ((DS, "DataStoreDirectory"), (SQ, "DataStoreSqlite")):
+        m = chk.repo.module(rel)
+        ci = m.cls(cname)
+        chain = [c for c in ci.mro() if hasattr(c, "methods")]
+        for meth in ("write", "write_not_completed"):
+            fn = ci.methods.get(meth)
+            if not isinstance(fn, ast.FunctionDef):
+                continue
+            appends = [c for c in walk_no_nested(fn) if isinstance(c, ast.Call) and isinstance(c.func, ast.Attribute) and c.func.attr in ("append", "remove") and norm(c.func.value) in ("self._completed", "self._not_completed")]
+            if not appends:
+                continue
+            g = build(fn)
+            for a in appends:
+                which = norm(a.func.value).replace("self._", "")
+                # nodes of this method that fill that list unconditionally
+                r = _loads_member_cache(chain, fn, 3, {}, which)
+                load_nodes = r[1] if isinstance(r, tuple) else []
+                holder = g.nodes_containing(lambda x: x is a)
+                # the CFG used inside _loads_member_cache is another build of the same function: match by line
+                lines = {n.lineno for n in load_nodes}
+                mine = [n for n in g.nodes if n.ast is not None and n.lineno in lines and n.kind != "def"]
+                okd = bool(holder) and bool(mine) and all(g.dominated_by(h, mine)[0] for h in holder)
+                chk.decide(okd, "R13.10", key(m, f"{cname}.{meth}", f"`{norm(a)[:50]}` after the cache was loaded"), m.loc(a), "dominated by an unconditional load of the member lists", f"`{norm(a)[:60]}` can run before anything has filled the lazy member lists (the only lookup on the way, `unique_id in self` inside _check_writable, is short-circuited away in mode 'w'): the list then holds just this member and the records already in the store are no longer reported by completed / members / len() / in")
+    chk.floor("R13.10", 3, "cache appends of the two stores")
+
+
 def run(chk):
+    r13_10(chk)
     r13_9(chk)
     r13_7(chk)
     r13_8(chk)
